@@ -117,7 +117,7 @@ PROPS = {
     "C03": {
         "property_module": "AutosarVerif.Properties.C03",
         "modules": ["AutosarVerif.Properties.C03"],
-        "closure": ['AutosarVerif.Properties.C03', 'AutosarVerif.Lemmas.World', 'AutosarVerif.Lemmas.WorldOps'],
+        "closure": ['AutosarVerif.Properties.C03', 'AutosarVerif.Lemmas.World', 'AutosarVerif.Lemmas.WorldOps', 'AutosarVerif.Lemmas.WfOps', 'AutosarVerif.Lemmas.Reachable', 'AutosarVerif.Lemmas.FilesOps2', 'AutosarVerif.Lemmas.FileOps', 'AutosarVerif.Lemmas.Compat'],
         "scenario": "world",
         "scenario_args": ['--prop', 'C03'],
         "rule": 'operation histories on the real library (PROTOCOL.md): `reset`, a template build (packages from the name universe a a1 a10 a1b a2 pkg1 pkg10 b, nested packages, ELEMENTS with several kinds, mixed content, references to existing / dangling / future paths), then 20-60 (thorough up to 200) weighted random requests with mostly-valid and deliberately invalid arguments (stale handles, wrong kinds, bad positions, duplicates, descendants as destination), `dump` after every state-changing request; kinds basic / sort / copy / files. Every request is answered by the real library and by the Lean world model and compared verbatim (dumps include every parent field, attribute, value, comment, local file set, the whole path index and every key of the reverse reference map via hook H1); a history is cut at the first request kind the model does not cover (file-set operations, moves between models) — counted in coverage.correspondence. The direct oracle of the property is evaluated on the real library after every request; failing histories are shrunk. Non-trivial = distinct request line.' + " Oracle: " + 'parent/position/model of every reachable element, model-/element-/file-scoped DFS iterators with and without depth limit against the structural preorder, probes through every stale handle.',
@@ -226,7 +226,7 @@ PROPS = {
     "C10": {
         "property_module": "AutosarVerif.Properties.C10",
         "modules": ["AutosarVerif.Properties.C10"],
-        "closure": ['AutosarVerif.Properties.C10', 'AutosarVerif.Lemmas.Files', 'AutosarVerif.Lemmas.FileOps'],
+        "closure": ['AutosarVerif.Properties.C10', 'AutosarVerif.Lemmas.Files', 'AutosarVerif.Lemmas.FileOps', 'AutosarVerif.Lemmas.WfOps', 'AutosarVerif.Lemmas.Reachable', 'AutosarVerif.Lemmas.FilesOps2', 'AutosarVerif.Lemmas.Compat'],
         "scenario": 'world',
         "scenario_args": ['--prop', 'C10', '--kind', 'files'],
         "extra_scenarios": [("merge", [])],
